@@ -402,6 +402,37 @@ def run_jobs(run, J, conc=None):
         U.absorb(run, res, on_refuted)
 
 
+def _lock(args):
+    from specs import highjump_machine as M
+    hj = real_module('athlib.highjump')
+    N, depth, budget = args
+    hist, d = M.search(hj.HighJumpCompetition, RV(), N=N, max_len=depth, budget=budget)
+    return N, depth, budget, ([(a, str(v)) for a, v in hist] if hist is not None else None), d
+
+
+def lockstep_standin(run, tier):
+    """bounded second line on the real class: breadth-first call sequences in lock-step with the executable rule machine
+    (decides undecided obligations; also validates the machine against the code)"""
+    cfg = [(1, 7, 30000), (2, 6, 60000), (3, 4, 40000)] if tier == 'quick' else [(1, 9, 200000), (2, 8, 600000), (3, 6, 600000), (4, 5, 400000)]
+    found = False
+    tot = 0
+    for r in report.pool_map(_lock, cfg):
+        if isinstance(r, dict):
+            run.checker_error(r['_crash'])
+            continue
+        N, depth, budget, hist, d = r
+        tot += budget
+        if hist is not None:
+            found = True
+            run.violation('standin/real-class-in-lock-step-with-the-rules', dict(call='%d athlete(s); history %r' % (N, hist), observed=d,
+                                                                                 required='the behaviour the rules prescribe', input=['history', N, hist]), True)
+    run.bounded.append(dict(what='real HighJumpCompetition in lock-step with the executable rule machine, breadth-first over call sequences '
+                                 '(deduplicated on the observable state)', bound='%r = (athletes, depth, call budget)' % (cfg,), evaluations=tot,
+                            distinct_nontrivial=tot, decides='undecided obligations only (second line)'))
+    if not found:
+        run.standin_covers('*/in-subset')
+
+
 def main(tier, seed):
     run = report.Run(PROP, tier, seed)
     run.expected_min_obligations = 500
@@ -412,4 +443,5 @@ def main(tier, seed):
                'bibs are those of athletes in the competition (an unknown bib raises KeyError: outside "every bib" as we read it)',
                'list.sort is a stable sort by the key (native, forks on symbolic comparisons)')
     run_jobs(run, jobs(tier))
+    lockstep_standin(run, tier)
     return run.finish()
